@@ -16,6 +16,19 @@ Qed.
 
 Definition b2n (b : bool) : nat := if b then 1 else 0.
 
+Lemma zn_succ n : (Z.of_nat n + 1)%Z = Z.of_nat (n + 1).
+Proof. lia. Qed.
+Lemma zn_plus0 n : Z.of_nat n = Z.of_nat (n + 0).
+Proof. lia. Qed.
+Lemma ar_one (n n' : nat) : (n' + 1 = n + 0)%nat -> n' = 0%nat -> n = 1%nat.
+Proof. lia. Qed.
+Lemma ar_notone (n n' k : nat) : (n' + 1 = n + 0)%nat -> n' = S k -> Z.of_nat n <> 1%Z.
+Proof. lia. Qed.
+Lemma ar_mono (n n' b : nat) : (n' + b = n + 0)%nat -> n = 0%nat -> n' = 0%nat.
+Proof. lia. Qed.
+Lemma ar_pred (n n' : nat) : (n' + 1 = n + 0)%nat -> (Z.of_nat n - 1)%Z = Z.of_nat n'.
+Proof. lia. Qed.
+
 Lemma nopen_upd h g ss y :
   NoDup (map x_id ss) -> find_stx h ss = Some y -> (forall z, x_id (g z) = x_id z) ->
   (nopen (upd_stx h g ss) + b2n (x_open y) = nopen ss + b2n (x_open (g y)))%nat.
@@ -204,11 +217,11 @@ Proof.
     { unfold cl. cbn. apply (rt_cl2 _ _ _ HR Hlive F4). }
     cbn [andb]. destruct (negb cl) eqn:Encl.
     + apply Hgen. intros _. cbn [scount st_set_txs]. rewrite Hn, (i_cnt _ _ _ I F4). fold (nopen (sp_tx sp)).
-      rewrite <- Ecl, Encl. cbn [b2n]. lia.
+      rewrite <- Ecl, Encl. cbn [b2n]. apply zn_succ.
     + pose proof (Hgen (scount s)) as P.
       assert (E : st_set_scount (st_set_txs s (txs s ++ [xn])) (scount s) = st_set_txs s (txs s ++ [xn])) by reflexivity.
       rewrite E in P. apply P. intros _. rewrite Hn, (i_cnt _ _ _ I F4). fold (nopen (sp_tx sp)).
-      rewrite <- Ecl, Encl. cbn [b2n]. lia.
+      rewrite <- Ecl, Encl. cbn [b2n]. apply zn_plus0.
   - cbn [andb]. pose proof (Hgen (scount s)) as P.
     assert (E : st_set_scount (st_set_txs s (txs s ++ [xn])) (scount s) = st_set_txs s (txs s ++ [xn])) by reflexivity.
     rewrite E in P. apply P. intros; discriminate.
@@ -287,13 +300,13 @@ Proof.
   { intros F4. unfold tx_ran. rewrite F4. cbn [negb orb]. rewrite Hao', negb_involutive.
     rewrite (i_cnt _ _ _ I F4). fold (nopen (sp_tx sp)). rewrite (Hopen4 F4) in Hn. cbn [b2n] in Hn.
     destruct (nopen (upd_stx h g (sp_tx sp))) as [|k] eqn:E.
-    - assert (nopen (sp_tx sp) = 1%nat) by lia. rewrite H. reflexivity.
-    - cbn. apply Z.eqb_neq. lia. }
+    - rewrite (ar_one _ _ Hn eq_refl). reflexivity.
+    - cbn. apply Z.eqb_neq. eapply ar_notone; [exact Hn | reflexivity]. }
   assert (Hran0 : fix04 c = false -> tx_ran c s = true).
   { intros F4. unfold tx_ran. rewrite F4. reflexivity. }
   assert (Hao_mono : any_open sp = false -> any_open sp1 = false).
   { rewrite any_open_nopen, Hao'. intros H. apply negb_false_iff in H. apply Nat.eqb_eq in H.
-    apply negb_false_iff. apply Nat.eqb_eq. lia. }
+    apply negb_false_iff. apply Nat.eqb_eq. eapply ar_mono; eauto. }
   assert (Hsg : sg c sp1 = sg c sp).
   { unfold sg, single, sp1. cbn [sp_tx sp_set_tx]. unfold upd_stx. rewrite map_length. reflexivity. }
   assert (Hsingle : fix04 c = false -> sg c sp = true -> any_open sp1 = false).
@@ -390,7 +403,7 @@ Proof.
   - apply (i_lnd _ _ _ I).
   - intros t l m H1 H2. rewrite map_map. erewrite map_ext; [eapply (i_lknown _ _ _ I); eauto | exact HFid].
   - intros F4. rewrite F4. rewrite (i_cnt _ _ _ I F4). fold (nopen (sp_tx sp)). fold (nopen (upd_stx h g (sp_tx sp))).
-    rewrite (Hopen4 F4) in Hn. cbn [b2n] in Hn. lia.
+    rewrite (Hopen4 F4) in Hn. cbn [b2n] in Hn. apply ar_pred. exact Hn.
 Qed.
 
 Lemma tx_close_internal_txs c s t :
